@@ -192,6 +192,33 @@ CLAIMED = {
          'and that add_xmp_key copies the attributes/events it does not rewrite.'),
    note='Undecided: URL normalisation, container-level placement of the XMP packet per format, tag-form (element) provenance values written by other tools. Trusted base: ' + TRUSTED + '; quick_xml: From<(&str,&str)> for Attribute escapes, From<(&[u8],&[u8])> does not',
    design='5/C30'),
+ 'C03': dict(
+   technique='def-use wiring rules on MIR over the two conversions (field-access inventory from ADT facts, sink/source identity, loop must-pass-through)',
+   text=('Decides that every supplied ManifestDefinition/AssertionDefinition field the statement names is read while building the claim and reaches the matching Claim mutator (title, format, instance id, claim generator info, '
+         'ingredients with redactions, every assertion element through an add_assertion call, un-applied redactions rejected), and that Manifest::from_store (sync and async) rebuilds title, format, claim generator, '
+         'claim generator info, assertions, ingredients and redactions from the Claim accessors rather than from defaults.'),
+   note='Undecided: equality of reported values for all definitions, sizes, algorithms and settings; that signing succeeds. Trusted base: ' + TRUSTED,
+   design='5/C03'),
+ 'C07': dict(
+   technique='sibling-implementation agreement rules on MIR (carrier constants shared by reader/writer/remover, locate-before-write must-pass-through, context-restricted reachability for removal by empty write, equal recogniser gates)',
+   text=('Decides per handler that reader, writer and remover reference the same carrier constants, that every Ok return of write_cai/remove passes the locate-or-strip routine for an existing store, that removers which delegate to '
+         'write_cai with an empty store reach the strip site and not the insert site under that argument, that the ID3 writer drops old GEOB frames with the reader\'s acceptance predicate, and that the JPEG recognisers of C2PA segments gate on the same minimum length.'),
+   note='Undecided: byte equality of read-after-write for all lengths and operation sequences; validity of the asset after removal. Trusted base: ' + TRUSTED + '; frozen per-handler carrier/locate tables in rules/C07.py',
+   design='5/C07'),
+ 'C08': dict(
+   technique='MIR dominance rules on every in-place write (length-equality guard, seek-before-write) + equality guard on the regenerated JUMBF + carrier-constant agreement of the region reporters',
+   text=('Decides that start_save_stream and save_to_bmff_fragmented return the regenerated JUMBF only when its length equals the placeholder (else Err(JumbfCreationError)), that every write on the asset reachable from the 7 '
+         'AssetPatch::patch_cai_store implementations is dominated by the equal edge of a comparison between the written buffer\'s length and the located manifest length and preceded by a seek, and that each handler\'s '
+         'get_object_locations_from_stream references the handler\'s carrier constants (JPEG gate agreement is shared with C07-D5).'),
+   note='Undecided: arithmetic of the reported offsets, overlap of regions, byte-level diffs for all sizes. BMFF reports no object locations (tabled). Trusted base: ' + TRUSTED,
+   design='5/C08'),
+ 'C09': dict(
+   technique='MIR must-call / guard rules on the BMFF offset fix-up and the copying routines of the TIFF, RIFF and ID3 writers',
+   text=('Decides that every BMFF rewrite that changes the C2PA box size returns Ok only with a zero shift or after adjust_known_offsets on the output with a shift derived from the box sizes, that the fix-up looks up every '
+         'offset-bearing box kind of the frozen list and rewrites iloc offsets only under construction_method == 0, whether a shift is ever conditioned on the position of the addressed bytes (it is not: known finding), '
+         'and that TIFF/RIFF writers go through their cloning routines with every child copied.'),
+   note='Undecided: that bytes, order and offsets are in fact preserved for all layouts. Trusted base: ' + TRUSTED,
+   design='5/C09'),
 }
 
 NA_REASONS = {
